@@ -226,6 +226,9 @@ Holds(e, name) ==
          \A k \in DOMAIN o.constmeans : C11_Const(g, cf.const, FaceFieldOf(g, o.constmeans[k]))
     [] name = "C11_LinearExact" ->
          C11_LinearExact(g, cf.lin_alpha, cf.lin_beta, FaceFieldOf(g, o.linmean_linear))
+    [] name = "C07_Premise" -> VecZero(g, FieldOf(g, o.divu))
+    [] name = "C07_SignStructure" -> C07_SignStructure(g, MatOf(o.Mdiff), MatOf(o.Mup), MatOf(o.Msrc))
+    [] name = "C07_Hull" -> C07_Hull(o.steps)
     [] name = "C04_DiffInterior" -> InteriorRowsOnly(g, MatOf(o.Mdiff))
     [] name = "C04_ConvInterior" -> InteriorRowsOnly(g, MatOf(o.Mconv))
     [] name = "C04_UpInterior"   -> InteriorRowsOnly(g, MatOf(o.Mup))
